@@ -2,9 +2,9 @@ SPECIFICATION Spec
 CONSTANTS
   NKeys = 2
   NVals = 2
-  Heights = {1}
+  Heights = {1, 2}
   MaxRoots = 2
-  MaxOps = 4
+  MaxOps = 5
   MaxWrites = 2
   Strides = {1}
   SimWidth = 1
